@@ -210,7 +210,7 @@ func c17HasPrefix32(p, prefix []int32) bool {
 type c17ReqTally struct {
 	requests, generated, generatedImports, generatedWKT, withheldImports, withheldWKT, ambiguous int
 	closureFiles, orderEdges                                                                     int
-	strippedTop, strippedNested, sourceKept, importKept, runtimeViews, untouchedViews           int
+	strippedTop, strippedNested, sourceKept, importKept, runtimeViews, untouchedViews            int
 	siRemoved                                                                                    int
 	sharedImports, crossDirTargets, multiRequest                                                 int
 }
